@@ -32,7 +32,7 @@ RULE = (
     "associations, 9 op pairs, 8^3 kind triples, with one unary constructor from {.H,*2.0,*(-3),0.5*} at at most one "
     "of the 5 node positions; float64 and complex128 (jac/hess leaves real only).  For every tree: shape, "
     "{mv, mm, rmv, rmm, fullmatrix, .H.mv, .H.mm, .H.rmv, .H.fullmatrix, .H.H.mv} on all unit vectors, on dense "
-    "operands with batch shapes {(), (3,), (2,1), (1,2), (3,1,2)} (non-broadcastable ones must raise) and on an "
+    "operands with batch shapes {(), (3,), (2,), (2,1), (1,2), (3,1,2)} (incl. fewer-but-nonzero batch dimensions than the operator) (non-broadcastable ones must raise) and on an "
     "operand with a wrong last dimension (must raise).  part bad: malformed constructions must raise.  "
     "part hist: class hierarchy Base(_mv) <- Mid(+_rmv) <- Leaf(+_mm,+_fullmatrix), Base <- Other(+_rmm) created "
     "afresh per path; events = first instantiation of one of the four classes, 'attempt LinearOperator(...) itself' "
@@ -61,7 +61,7 @@ SQ_ONLY = ("math", "mfh", "hess")
 NOBATCH = ("jac", "hess")
 REAL_ONLY = ("jac", "hess")
 UNARY = ["H", "mul2", "mulm3", "rmul"]
-XBATCHES = [(), (3,), (2, 1), (1, 2), (3, 1, 2)]
+XBATCHES = [(), (3,), (2,), (2, 1), (1, 2), (3, 1, 2)]
 DT = {"float64": torch.float64, "complex128": torch.complex128, "float32": torch.float32}
 
 
